@@ -28,7 +28,11 @@ vp_memcpy64(void *dst, const void *src, size_t n)
 #pragma CPROVER check disable "pointer-overflow"
 #pragma CPROVER check disable "pointer-primitive"
 	if (n <= 64) {
+#ifdef RR_T_NOCOPY
+		VP_CP4(0)
+#else
 		VP_CP16(0) VP_CP16(16) VP_CP16(32) VP_CP16(48)
+#endif
 	}
 #pragma CPROVER check pop
 	return (dst);
